@@ -36,14 +36,14 @@ ASSUMPTIONS = [
     "eval mode only; CPU float32; comparison rtol 1e-4 / atol 1e-5",
 ]
 TIERS = {
-    "quick": {"runs": 900, "time_cap_s": 100, "chunk": 6, "det_inproc": 3, "det_fresh": 2, "minimise_s": 60},
+    "quick": {"runs": 650, "time_cap_s": 85, "chunk": 6, "det_inproc": 3, "det_fresh": 2, "minimise_s": 60},
     "thorough": {"runs": 40000, "time_cap_s": 1500, "chunk": 12, "det_inproc": 10, "det_fresh": 6, "minimise_s": 180},
 }
 HEADS = ["single_instance", "centroid", "centered_instance", "bottomup"]
 
 
 def gen_plan(rng, index, tier):
-    fam = rng.choices(["unet", "convnext", "swint"], [0.8, 0.1, 0.1])[0]
+    fam = rng.choices(["unet", "convnext", "swint"], [0.7, 0.12, 0.18])[0]
     if index < 3:
         fam = ["unet", "convnext", "swint"][index]
     head = HEADS[index % 4] if index < 16 else rng.choice(HEADS)
@@ -98,12 +98,16 @@ def gen_plan(rng, index, tier):
         if r < 0.15:
             calls.append({"op": "rng_jump", "seed": rng.randrange(1 << 30)})
         m = max_stride
-        hmul = rng.randint(1, max(1, (64 if big else 96) // m))
-        wmul = rng.randint(1, max(1, (64 if big else 96) // m))
+        hmul = rng.randint(1, max(1, 96 // m))
+        wmul = rng.randint(1, max(1, 96 // m))
         if fam == "swint":
             hmul, wmul = max(hmul, 2), max(wmul, 2)
         calls.append({"op": "forward", "B": rng.choice([1, 2, 3]), "H": hmul * m, "W": wmul * m, "data": rng.randrange(1 << 30),
                       "perm": rng.random() < 0.3})
+        if hmul != wmul and rng.random() < 0.45:
+            # the same area in the other orientation: equal element / window counts with a different layout is exactly
+            # where a size-keyed cache or a reshaped buffer carried over from the previous call goes wrong
+            calls.append({"op": "forward", "B": rng.choice([1, 2]), "H": wmul * m, "W": hmul * m, "data": rng.randrange(1 << 30), "perm": False})
     return {"family": fam, "backbone": bb, "head": head, "head_cfg": hc, "calls": calls, "init_seed": rng.randrange(1 << 30)}
 
 
@@ -185,7 +189,7 @@ HEAD_NAMES = {
 def execute(plan, choices=None):
     violations = []
     trace = []
-    probes = {"forward_calls": 0, "frames_compared_with_pristine_copy": 0, "input_size_changed_between_calls": 0, "rng_jumps": 0,
+    probes = {"forward_calls": 0, "frames_compared_with_pristine_copy": 0, "input_size_changed_between_calls": 0, "transposed_size_after_call": 0, "rng_jumps": 0,
               "batch_permuted": 0, "head_stride_differs_from_backbone_min": 0, "bottomup_two_strides": 0, "stem_blocks_used": 0, "family_" + plan["family"]: 1}
     fam, head = plan["family"], plan["head"]
 
@@ -219,8 +223,9 @@ def execute(plan, choices=None):
             torch.manual_seed(plan["init_seed"])
             model = Model(backbone_type=fam, backbone_config=bb, head_configs=hc, input_expand_channels=bb["in_channels"], model_type=head)
             model.eval()
-            ref = copy.deepcopy(model)
+            ref = copy.deepcopy(model)  # never called itself: every comparison runs on a fresh deep copy of it
             ref.eval()
+            n_params = sum(p.numel() for p in model.parameters())
         except Exception as e:
             import traceback
 
@@ -250,6 +255,8 @@ def execute(plan, choices=None):
             xin = x[order]
             if last_hw is not None and last_hw != (H, W):
                 probes["input_size_changed_between_calls"] += 1
+                if last_hw == (W, H):
+                    probes["transposed_size_after_call"] += 1
             last_hw = (H, W)
             trace.append(("forward", B, H, W))
             try:
@@ -278,8 +285,12 @@ def execute(plan, choices=None):
             if violations:
                 break
             # per-frame determinism / independence against the pristine copy, one frame at a time
+            fresh = None
             for k in range(B):
-                solo = ref(x[order[k]:order[k] + 1])
+                if fresh is None or n_params < 2_000_000:
+                    # a copy that has no call history at all (big presets: one fresh copy per call, reused for its <= 3 frames)
+                    fresh = copy.deepcopy(ref)
+                solo = fresh(x[order[k]:order[k] + 1])
                 probes["frames_compared_with_pristine_copy"] += 1
                 for hname in names.values():
                     a, b = out[hname][k], solo[hname][0]
